@@ -12,8 +12,11 @@ META = {
                    "keyed by (solution.predicate_to_solve.contract, mutation.key) -> mutation.value, and the second pass (RunMode::Checks) is given the view built from that map and is dominated "
                    "by success of the first; the StateRead impl of the view forwards the request unchanged to the overlay helper, which on the no-mutation path delegates the whole request to the "
                    "pre-state. R3 the deferral mask contains every Effects flag whose name starts with Post. R4 the Outputs pass keeps the non-deferred nodes, the Checks pass the deferred ones. "
-                   "R5 the deferred set is closed under descendants (propagation iterated to a fixed point or in topological order).",
-    "not_decided": "the overlay arithmetic itself (next_key carry, ranges straddling mutated and unmutated keys, deletion as empty value): value-level.",
+                   "R5 the deferred set is closed under descendants (propagation iterated to a fixed point or in topological order)."
+                   " R7 the per-key loop of the overlay: for each of num_values keys, a key found in the contract's mutations yields a clone of that value, any other key the single value read from "
+                   "the pre-state at the *same* key; the key is advanced by next_key exactly once per value and the loop ends at num_values or when next_key has no successor; next_key walks the key "
+                   "from its last word, turns Word::MAX into Word::MIN and carries, adds one to the first other word and returns, and returns None only when every word carried.",
+    "not_decided": "what HashMap::get, Vec::push and clone do (std); that a deletion is represented as an empty value is a convention of the callers.",
 }
 
 TWO = "essential_check::solution::check_and_compute_solution_set_two_pass"
@@ -38,6 +41,8 @@ def run(ctx):
     ctx.rule("R6", "the byte scan used for deferral is exact (C15 R2/R3): flag pairs, immediates skipped, false only at end of input")
     C15.run(_Only(ctx, "R2", "R6"))
     C15.run(_Only(ctx, "R3", "R6"))
+    ctx.rule("R7", "per-key overlay: a mutated key yields the mutation's value, any other key one word-vector read from the pre-state at that key; the key advances by next_key (carry from the last word) once per value")
+    r7(ctx, prog)
 
 
 def r2(ctx, prog):
@@ -243,3 +248,101 @@ def r5(ctx, prog):
     ctx.ob("R5", "deferred-set-closed-under-descendants", fix or topo, g.loc(bb),
            "children are inserted inside %d loop(s); fixed-point iteration: %s; topological-order iteration: %s. A single pass in index order misses descendants with a lower index than their parent (2->1->0)."
            % (len(loops), why or "none", topo), g)
+
+
+def r7(ctx, prog):
+    nk = prog.fn("essential_check::solution::next_key")
+    if ctx.anchor("R7", "fn next_key", nk):
+        ctx.saw(nk)
+        tab = M.return_table(prog, nk)
+        IT = r"<std::iter::Rev<I> as std::iter::Iterator>::next\(<I as std::iter::IntoIterator>::into_iter\(std::iter::Iterator::rev\(slice::iter_mut\(key\)\)\)\)"
+        MAXV = str(2 ** 63 - 1)
+        none = [(v, at) for _, v, at in tab if v == "Option::None{}"]
+        some = [(v, at) for _, v, at in tab if v.startswith("Option::Some{")]
+        ok = len(tab) == 2 and len(none) == 1 and len(some) == 1
+        ok = ok and len(none[0][1]) == 1 and re.match(r"^is:None\(%s\)$" % IT, none[0][1][0]) is not None
+        ok = ok and some[0][0] == "Option::Some{key}" and len(some[0][1]) == 2 and re.match(r"^is:Some\(%s\)$" % IT, some[0][1][0]) is not None \
+            and re.match(r"^ne:\(%s as Some\)\.0∉\{%s\}$" % (IT, MAXV), some[0][1][1]) is not None
+        ctx.ob("R7", "next_key:table", ok, nk.loc(0), "walks the words from the last; None only when the walk ends; Some(key) at the first word that is not Word::MAX; table %s" % [(v, [a[:40] + ".." + a[-30:] for a in at]) for _, v, at in tab], nk)
+        pv = prog.prov(nk)
+        stores = []
+        for bb, b in enumerate(nk.blocks):
+            if b.get("cleanup"):
+                continue
+            for st in b["stmts"]:
+                if st["k"] == "assign" and not M.Place(st["pl"]).is_local():
+                    stores.append((bb, M.render(pv.of_place(M.Place(st["pl"]))), M.render(pv.of_rvalue(st["rv"])), [a.text for a in C.conditions(prog, nk, bb)]))
+        EL = r"\(%s as Some\)\.0" % IT
+        carry = [s_ for s_ in stores if s_[2] == "std::num::<impl i64>::MIN" and re.match("^%s$" % EL, s_[1]) and any(re.match(r"^eq:%s=%s$" % (EL, MAXV), a) for a in s_[3])]
+        inc = [s_ for s_ in stores if re.match(r"^AddWithOverflow\(%s, 1\)\.0$" % EL, s_[2]) and re.match("^%s$" % EL, s_[1]) and any(re.match(r"^ne:%s∉\{%s\}$" % (EL, MAXV), a) for a in s_[3])]
+        ctx.ob("R7", "next_key:carry-and-increment", len(stores) == 2 and len(carry) == 1 and len(inc) == 1, nk.loc(0),
+               "writes: %s" % [(s_[2][:60] if len(s_[2]) < 60 else s_[2][:24] + ".." + s_[2][-12:]) for s_ in stores], nk)
+        loops = M.natural_loops(nk)
+        ctx.ob("R7", "next_key:carry-continues,increment-returns", len(loops) == 1 and len(carry) == 1 and len(inc) == 1 and carry[0][0] in loops[0][1] and inc[0][0] not in loops[0][1], nk.loc(0),
+               "the Word::MAX arm stays in the loop, the other arm leaves it", nk)
+    h = prog.fn("essential_check::solution::read_or_fallback")
+    if not ctx.anchor("R7", "fn read_or_fallback", h):
+        return
+    pv = prog.prov(h)
+    cfg = h.cfg()
+    loops = M.natural_loops(h)
+    if not ctx.ob("R7", "overlay:one-loop", len(loops) == 1, h.loc(0), "%d loop(s)" % len(loops), h):
+        return
+    body = loops[0][1]
+    r_ = lambda t, i: M.render(M.peel(pv.of_operand(t["args"][i])))
+    it = [(bb, t) for bb, t in h.calls() if M.callee_of(t).endswith("IntoIterator>::into_iter")]
+    ctx.ob("R7", "overlay:num_values-iterations", len(it) == 1 and r_(it[0][1], 0) == "std::ops::Range::Range{0, num_values}", h.loc(it[0][0]) if it else h.loc(0), "iterates %s" % [r_(t, 0) for _, t in it], h)
+    gets = [(bb, t) for bb, t in h.calls() if M.callee_of(t) == "std::collections::HashMap::get" and bb in body]
+    pushes = [(bb, t) for bb, t in h.calls() if M.callee_of(t) == "std::vec::Vec::push"]
+    krs = [(bb, t) for bb, t in h.calls() if M.callee_decl(t) == "essential_vm::state_read::StateRead::key_range" and bb in body]
+    nks = [(bb, t) for bb, t in h.calls() if M.callee_of(t) == "essential_check::solution::next_key"]
+    if not ctx.ob("R7", "overlay:shape", len(gets) == 1 and len(pushes) == 2 and len(krs) == 1 and len(nks) == 1 and all(bb in body for bb, _ in pushes + nks), h.loc(0),
+                  "in the loop: %d lookup(s), %d push(es), %d single read(s), %d next_key call(s)" % (len(gets), len(pushes), len(krs), len(nks)), h):
+        return
+    KEY = r_(gets[0][1], 1)
+    G = "std::collections::HashMap::get(%s, %s)" % (r_(gets[0][1], 0), KEY)
+    hit = [(bb, t) for bb, t in pushes if any(a.text == "is:Some(%s)" % G for a in C.conditions(prog, h, bb))]
+    miss = [(bb, t) for bb, t in pushes if any(a.text == "is:None(%s)" % G for a in C.conditions(prog, h, bb))]
+    ok = len(hit) == 1 and re.match(r"^(<.* as std::clone::Clone>::clone|std::clone::Clone::clone)\(\(%s as Some\)\.0\)$" % re.escape(G), M.render(pv.of_operand(hit[0][1]["args"][1]))) is not None
+    ctx.ob("R7", "overlay:mutated-key->the-mutation's-value", ok and r_(gets[0][1], 0) == "(std::collections::HashMap::get(post.state, contract_addr) as Some).0", h.loc(hit[0][0]) if hit else h.loc(0),
+           "pushes %s" % [M.render(pv.of_operand(t["args"][1]))[:160] for _, t in hit], h)
+    kr = krs[0][1]
+    kargs = [M.render(pv.of_operand(a)) for a in kr["args"]]
+    strip = lambda x: re.sub(r"^(<.* as std::clone::Clone>::clone|std::clone::Clone::clone)\((.*)\)$", r"\2", x)
+    ok = len(miss) == 1 and len(kargs) == 4 and strip(kargs[2]) == KEY and strip(kargs[1]) == "contract_addr" and kargs[3] == "1"
+    want = "Option::unwrap_or_default(Vec::pop(%s?))" % M.render(pv.of_call(kr))
+    got = M.render(pv.of_operand(miss[0][1]["args"][1])) if miss else "?"
+    ctx.ob("R7", "overlay:other-key->one-value-read-at-that-key", ok and got == want, h.loc(miss[0][0]) if miss else h.loc(0), "single read key_range(%s); pushes %s" % (", ".join(k[:60] for k in kargs), got[:80] + ".."), h)
+    nb = nks[0][0]
+    header = loops[0][0]
+
+    def same_iteration(a, b):
+        seen, todo = {a}, [a]
+        while todo:
+            x = todo.pop()
+            if x == b:
+                return True
+            for y in h.succs(x):
+                if y in body and y != header and y not in seen:
+                    seen.add(y)
+                    todo.append(y)
+        return False
+    rows = [v for _, v, _ in M.return_table(prog, h) if v != "<propagate error>"]
+    ctx.ob("R7", "overlay:returns-the-collected-values", rows == ["Result::Ok{var:out}"] or (len(rows) == 1 and re.match(r"^Result::Ok\{var:\w+\}$", rows[0]) is not None), h.loc(0), "returns %s" % rows, h)
+    ctx.ob("R7", "overlay:key-advances-once-per-value", all(same_iteration(bb, nb) for bb, _ in pushes) and strip(r_(nks[0][1], 0)) != "" and cfg.dominates(gets[0][0], nb), h.loc(nb),
+           "next_key is called after either push, once per iteration", h)
+    # the key variable is reassigned only from next_key's Some
+    key_locals = [l for l in range(1, h.arg_count + 1) if h.names.get(l) == "key" or (h.arg_names[l - 1:l] == ["key"])]
+    kl = key_locals[0] if key_locals else 4
+    defs = [d for d in pv.defs.get(kl, []) if d[2] != "partial"]
+    rend = [M.render(pv.of_rvalue(d[3])) if d[2] == "rv" else M.render(pv.of_call(d[3])) for d in defs]
+    ctx.ob("R7", "overlay:key:=next_key(key)", len(rend) == 1 and re.match(r"^\(essential_check::solution::next_key\(.*\) as Some\)\.0$", rend[0]) is not None, h.loc(nb), "key is reassigned from %s" % [x[:80] for x in rend], h)
+    ex_at = []
+    for bb in M.loop_exit_switches(h, body):
+        t = h.term(bb)
+        leaving = [x for x in [a[1] for a in t["arms"]] + [t["otherwise"]] if x not in body and h.term(x)["k"] != "unreachable"]
+        d = M.render(pv.of_operand(t["discr"]))
+        if leaving and "std::ops::Try>::branch(" not in d:
+            ex_at.append(d[:120])
+    ok = len(ex_at) == 2 and any("Range<A>>::next(" in x for x in ex_at) and any(x.startswith("discr(essential_check::solution::next_key(") for x in ex_at)
+    ctx.ob("R7", "overlay:loop-ends-at-num_values-or-last-key", ok, h.loc(0), "loop exits (other than error propagation) decided by %s" % ex_at, h)
